@@ -6,9 +6,12 @@ from harness.core import pool, tb
 from harness.gen import systems
 from harness.props import _shared
 
-PROOF_MODULE = ["OdeVerif.Proofs.C03", "OdeVerif.Proofs.C06"]
+PROOF_MODULE = ["OdeVerif.Proofs.C03", "OdeVerif.Proofs.C06", "OdeVerif.Proofs.RefineScatter", "OdeVerif.Proofs.RefineFromShapes"]
+GENERATED = ["PyScatter", "PyFromShapes"]
 THEOREMS = ["OdeVerif.C03.verdict_perm_invariant", "OdeVerif.C06.classify_rename_invariant", "OdeVerif.C06.eligible_perm_invariant",
-            "OdeVerif.C06.P_perm_equivariant", "OdeVerif.C06.assemble_perm_ok", "OdeVerif.C06.evalRow_perm_equivariant", "OdeVerif.C06.chain_row_is_unit"]
+            "OdeVerif.C06.P_perm_equivariant", "OdeVerif.C06.assemble_perm_ok", "OdeVerif.C06.evalRow_perm_equivariant", "OdeVerif.C06.chain_row_is_unit",
+            "OdeVerif.Refine.scatterBlocks_inside", "OdeVerif.Refine.scatterBlocks_outside", "OdeVerif.Refine.scatterBlocks_eq_scatter",
+            "OdeVerif.Refine.fromShapesRows_unit_rows", "OdeVerif.Refine.fromShapesRows_top_row"]
 LEVEL = "proof"
 
 RENAME_POOL = ["alpha_1", "bb", "Q", "zeta", "k9", "m_x", "rho", "sig"]
